@@ -138,6 +138,9 @@ inductive CBody where
   | interrupted (ws : List (List (BusyRef × Task))) (intervals : List (Int × Int))
   | periodicallyUnavailable (busy : List BusyRef) (intervals : List (Int × Int)) (period start offset : Int)
       (end_ : Option Int)
+  /-- the busy intervals of the (plain) worker with the task each belongs to -/
+  | periodicallyInterrupted (busy : List (BusyRef × Task)) (intervals : List (Int × Int)) (period start offset : Int)
+      (end_ : Option Int)
   | sameWorkers (s1 s2 : Select)
   | distinctWorkers (s1 s2 : Select)
   | unloadBuffer (t : Task) (b : String) (q : Int)
